@@ -86,7 +86,7 @@ FAMILY_WEIGHTS = {"quick": {"bag": 6, "template": 8, "twostep": 8, "cubic": 6, "
 # ---------------------------------------------------------------------------------------------
 @st.composite
 def st_case(draw, tier):
-    spec = draw(Z.st_eos(families=Z.FAMILIES, weights=FAMILY_WEIGHTS[tier]))
+    spec = draw(Z.st_eos(families=Z.FAMILIES, weights=FAMILY_WEIGHTS[tier], twostep_variants=("plain", "plain", "strongT")))
     tol = draw(Z.st_tolerances())
     if spec["family"] == "traced" and tier == "quick":
         tol = [1e-6, 1e-10]  # a traced EOS costs ~1 s to build and ~3 s per matching at 1e-9: thorough tier only
@@ -190,6 +190,8 @@ def _check_case(case) -> Verdict:
     solver = case["solver"]
     fam = spec["family"]
     v.label(f"family:{fam}", f"solver:{solver}", f"tol:{rtol:g}", f"vclass:{case['vclass']}")
+    if fam == "twostep":
+        v.label("twostep:" + ("strongT" if spec.get("strongT") else "steepT" if spec.get("steepT") else "plain"))
     try:
         th, meta = Z.build(spec)
     except Z.ZooError as exc:
